@@ -95,11 +95,11 @@ Fixpoint layout_okb (prev : option ltok) (gs : list str) (ts : list ltok) : bool
 (* ------------------------------------------------------------------------------------------- *)
 (* source-level layouts: gaps may also contain %-comments and every kind of line end.
    A gap is a list of items; a comment runs to a line end. *)
-Inductive brk := BrCRLF | BrChar (c : char).      (* c: a line-break character other than CR *)
+Inductive brk := BrCRLF | BrCR | BrChar (c : char).      (* c: a line-break character other than CR *)
 Inductive gitem := GWs (c : char) | GBrk (b : brk) | GCom (cm : str) (b : brk).
 Definition sgap := list gitem.
 
-Definition brk_text (b : brk) : str := match b with BrCRLF => [13; 10] | BrChar c => [c] end.
+Definition brk_text (b : brk) : str := match b with BrCRLF => [13; 10] | BrCR => [13] | BrChar c => [c] end.
 Definition gitem_text (i : gitem) : str :=
   match i with
   | GWs c => [c]
@@ -109,20 +109,29 @@ Definition gitem_text (i : gitem) : str :=
 Definition sgap_text (g : sgap) : str := flat_map gitem_text g.
 
 Definition brk_okb (b : brk) : bool :=
-  match b with BrCRLF => true | BrChar c => is_linebreak c && negb (c =? 13) end.
+  match b with BrCRLF | BrCR => true | BrChar c => is_linebreak c && negb (c =? 13) end.
+(* a bare CR must not be directly followed by LF (that would be a CRLF) *)
+Definition ends_cr (i : gitem) : bool := match i with GBrk BrCR | GCom _ BrCR => true | _ => false end.
+Definition starts_lf (items : list gitem) : bool :=
+  match items with GBrk (BrChar c) :: _ => c =? 10 | _ => false end.
+Fixpoint cr_okb (items : list gitem) : bool :=
+  match items with
+  | [] => true
+  | i :: r => negb (ends_cr i && starts_lf r) && cr_okb r
+  end.
 Definition gitem_okb (i : gitem) : bool :=
   match i with
   | GWs c => is_space c && negb (is_linebreak c)             (* blank, tab, no-break space ... *)
-  | GBrk b => brk_okb b                                      (* LF, CRLF, VT, FF, FS, GS, RS, NEL, LS, PS *)
+  | GBrk b => brk_okb b                                      (* LF, CRLF, CR, VT, FF, FS, GS, RS, NEL, LS, PS *)
   | GCom cm b => forallb (fun c => negb (is_linebreak c)) cm && brk_okb b   (* any text without a line end *)
   end.
 Definition default_sgap : sgap := [GWs c_space].
 Definition sgap_hd (gs : list sgap) : sgap := match gs with g :: _ => g | [] => default_sgap end.
 Fixpoint slayout_okb (prev : option ltok) (gs : list sgap) (ts : list ltok) : bool :=
   match ts with
-  | [] => forallb gitem_okb (match gs with g :: _ => g | [] => [] end)
+  | [] => let g := match gs with g :: _ => g | [] => [] end in forallb gitem_okb g && cr_okb g
   | t :: ts' =>
-    forallb gitem_okb (sgap_hd gs)
+    forallb gitem_okb (sgap_hd gs) && cr_okb (sgap_hd gs)
     && (negb (needs_gap prev t) || negb (match sgap_hd gs with [] => true | _ => false end))
     && slayout_okb (Some t) (tl gs) ts'
   end.
